@@ -535,6 +535,56 @@ fn run_workload(rng: &mut Rng, path: &str, blocks: u64, version: u32, ttl: bool,
 fn restamp_journal_checksum(_slot: &mut [u8]) {}
 
 /// structure-aware damage for C17 (and the recovery model's error branches)
+/// a second generation of a key that is already on the device: its single-block record is
+/// copied to a free block (below or above), with a newer or older timestamp and an expiry that
+/// is absent, already over at recovery time, or still ahead; the token is re-stamped for the
+/// new sector.  (What a crash between a replacement's write and the old extent's retirement
+/// leaves behind.)
+fn dup_generation(rng: &mut Rng, img: &mut Vec<u8>, version: u32, now: u64) -> bool {
+    let blocks = img.len() / BS;
+    let heads: Vec<usize> = (16..blocks).filter(|b| {
+        let o = b * BS;
+        if !(img[o] == 0xCD && img[o + 1] == 0xAB) { return false; }
+        let kl = u16::from_le_bytes([img[o + 4], img[o + 5]]) as usize;
+        if 6 + kl + 24 > BS { return false; }
+        let vl = u64::from_le_bytes(img[o + 6 + kl..o + 14 + kl].try_into().unwrap()) as usize;
+        vl > 0 && 6 + kl + 24 + vl <= BS
+    }).collect();
+    let free: Vec<usize> = (16..blocks).filter(|b| all_zero(&img[b * BS..b * BS + BS])).collect();
+    if heads.is_empty() || free.is_empty() { return false; }
+    let h = *rng.pick(&heads);
+    let below: Vec<usize> = free.iter().cloned().filter(|f| *f < h).collect();
+    let above: Vec<usize> = free.iter().cloned().filter(|f| *f > h).collect();
+    let src = img[h * BS..h * BS + BS].to_vec();
+    // where the second generation goes: a free block below, above, or - so that "newer below
+    // older" does not depend on holes - the original moves up and the new generation takes its place
+    let f = if !above.is_empty() && rng.chance(1, 2) {
+        let up = *rng.pick(&above);
+        img[up * BS..up * BS + BS].copy_from_slice(&src);
+        if version >= 3 {
+            fx::stamp_seq_token(&mut img[up * BS..up * BS + BS], up as u64, version);
+        }
+        h
+    } else if !below.is_empty() && rng.chance(1, 2) { *rng.pick(&below) } else { *rng.pick(&free) };
+    let o = f * BS;
+    img[o..o + BS].copy_from_slice(&src);
+    let kl = u16::from_le_bytes([src[4], src[5]]) as usize;
+    let ts = u64::from_le_bytes(src[14 + kl..22 + kl].try_into().unwrap());
+    let nts = if rng.chance(2, 3) { ts.saturating_add(rng.range(1, 9)) } else { ts.saturating_sub(rng.range(1, 9)) };
+    img[o + 14 + kl..o + 22 + kl].copy_from_slice(&nts.to_le_bytes());
+    if version >= 2 {
+        let e = match rng.below(4) { 0 => 0u64, 1 | 2 => now.saturating_sub(rng.range(1, 3_000_000_000)), _ => now.saturating_add(1_000_000_000_000) };
+        img[o + 22 + kl..o + 30 + kl].copy_from_slice(&e.to_le_bytes());
+    }
+    // change the value's first byte so the generations differ in content
+    let voff = if version >= 2 { 30 + kl } else { 22 + kl };
+    img[o + voff] ^= 0x5A;
+    if version >= 3 {
+        fx::stamp_seq_token(&mut img[o..o + BS], f as u64, version);
+    }
+    true
+}
+
 fn mutate_image(rng: &mut Rng, img: &mut Vec<u8>, version: u32) -> &'static str {
     let blocks = img.len() / BS;
     let data_blocks: Vec<usize> = (16..blocks).filter(|b| !all_zero(&img[b * BS..b * BS + 64])).collect();
@@ -629,12 +679,16 @@ fn mutate_image(rng: &mut Rng, img: &mut Vec<u8>, version: u32) -> &'static str 
     }
 }
 
+/// `dupgen` section: only multi-generation images (C11's no-resurrection clause)
+static DUPGEN_ONLY: std::sync::atomic::AtomicBool = std::sync::atomic::AtomicBool::new(false);
+
 fn sec_recover(s: &mut Sink, rng: &mut Rng, workloads: usize, mutations: usize) {
     let base = 1_700_000_000_000_000_000u64;
     for w in 0..workloads {
-        let version = *rng.pick(&[3u32, 3, 2, 1]);
+        let dupgen = DUPGEN_ONLY.load(std::sync::atomic::Ordering::Relaxed);
+        let version = if dupgen { *rng.pick(&[3u32, 3, 2]) } else { *rng.pick(&[3u32, 3, 2, 1]) };
         let blocks = rng.range(20, 64);
-        let ttl = rng.chance(1, 2);
+        let ttl = dupgen || rng.chance(1, 2);
         let path = format!("{}/dev{}.feox", s.dir, w);
         new_device(&path, blocks, version);
         let now = base + rng.below(1_000_000_000);
@@ -644,15 +698,21 @@ fn sec_recover(s: &mut Sink, rng: &mut Rng, workloads: usize, mutations: usize) 
         let pristine = std::fs::read(&path).unwrap();
         // 1. the flushed, cleanly closed file as it is (C10: independent reader)
         let later = now + *rng.pick(&[0u64, 2_000_000_000, 6_000_000_000, 2_000_000_000_000]);
-        let ttl_open = ttl && version != 1 && rng.chance(3, 4);
+        let ttl_open = ttl && version != 1 && (dupgen || rng.chance(3, 4));
         let (op, line) = recover_line(s, &path, false, ttl_open, later);
         s.emit(&format!("recover-clean-v{}", version), op, line);
         // 2. damaged variants (C17 + error branches of the model)
         for m in 0..mutations {
             let mut img = pristine.clone();
             let mut kinds = vec![];
-            for _ in 0..rng.range(1, 2) {
-                kinds.push(mutate_image(rng, &mut img, version));
+            if rng.chance(1, 4) || DUPGEN_ONLY.load(std::sync::atomic::Ordering::Relaxed) {
+                if dup_generation(rng, &mut img, version, later) { kinds.push("dup-generation"); }
+                if rng.chance(1, 3) && dup_generation(rng, &mut img, version, later) { kinds.push("dup-generation"); }
+            }
+            if kinds.is_empty() {
+                for _ in 0..rng.range(1, 2) {
+                    kinds.push(mutate_image(rng, &mut img, version));
+                }
             }
             let mp = format!("{}/dev{}_m{}.feox", s.dir, w, m);
             std::fs::write(&mp, &img).unwrap();
@@ -967,6 +1027,13 @@ fn main() {
     if sections.iter().any(|x| x == "migrate") {
         let w = kv(&args.extra, "workloads", 30 * k);
         sec_migrate(&mut s, &mut rng, w, &mut oracle);
+    }
+    if sections.iter().any(|x| x == "dupgen") {
+        DUPGEN_ONLY.store(true, std::sync::atomic::Ordering::Relaxed);
+        let w = kv(&args.extra, "workloads", 30 * k);
+        let m = kv(&args.extra, "mutations", 12);
+        sec_recover(&mut s, &mut rng, w, m);
+        DUPGEN_ONLY.store(false, std::sync::atomic::Ordering::Relaxed);
     }
     if sections.iter().any(|x| x == "recover") {
         let w = kv(&args.extra, "workloads", 30 * k);
